@@ -22,10 +22,11 @@ def chain(seed, k, tier):
     sc = SCHEDS[k % len(SCHEDS)]
     sched = dict(scen.LIVE, **sc)
     prior = k % 2 == 0 or tier != "quick"         # special addresses hold funds before their adjustment
-    s = scen.Scn("c15-%d" % k, sched=sched, seed=seed * 10 + k, assets=["PEG", "pUSD", "pXBT", "pEUR", "pDCR"])
+    s = scen.Scn("c15-%d" % k, sched=sched, seed=seed * 10 + k, assets=["PEG", "pUSD", "pXBT", "pEUR", "pDCR", "pNGN"])      # PEG / pNGN: first and last ticker
     users = [s.key("A1"), s.key("A2"), s.key("A3")]
     h = scen.live_preamble(s, users, fund_peg=1000 * 10**8)
-    s.entry(h, "A1", [{"t": "PEG", "amt": 300 * 10**8, "conv": "pUSD"}, {"t": "PEG", "amt": 100 * 10**8, "conv": "pXBT"}])
+    s.entry(h, "A1", [{"t": "PEG", "amt": 300 * 10**8, "conv": "pUSD"}, {"t": "PEG", "amt": 100 * 10**8, "conv": "pXBT"},
+                      {"t": "PEG", "amt": 50 * 10**8, "conv": "pNGN"}])
     s.grade(h); h += 1
     s.grade(h); h += 1
     first = min(sc["DevRewards"], sc["V202"])
@@ -34,7 +35,7 @@ def chain(seed, k, tier):
         # or, for the burn address before 2.0.2 / mint / developer addresses, as transfer recipients
         b = s.grade(h)
         b["opr"]["payTo"] = ["OLDBURN", "BURN", "MINT", "DEV2"] + scen.MINERS[4:]
-        for (t, v) in [("PEG", 5 * 10**8), ("pUSD", 7 * 10**8), ("pXBT", 1234)]:
+        for (t, v) in [("PEG", 5 * 10**8), ("pUSD", 7 * 10**8), ("pXBT", 1234), ("pNGN", 10**8)]:
             s.transfer(h, "A1", t, [("BURN", v + 1)], track=False)       # before 2.0.2 the (new) burn address is credited like any other
         s.transfer(h, "A1", "PEG", [("MINT", 3 * 10**8), ("DEV3", 10**8)], track=False)
         s.transfer(h, "A1", "pUSD", [("OLDBURN", 4242)], track=False)   # destroyed: the old burn address is the burn address before 2.0.2
